@@ -493,7 +493,7 @@ func runProperty() int {
 	all := discover()
 	var hs []harnessDecl
 	for _, h := range all {
-		if h.Prop == *prop && h.Tiers[*tier] && (*only == "" || *only == h.Name) {
+		if strings.Contains(","+h.Prop+",", ","+*prop+",") && h.Tiers[*tier] && (*only == "" || *only == h.Name) {
 			hs = append(hs, h)
 		}
 	}
